@@ -842,6 +842,7 @@ class FloatTree:
         p = self.P[qi]
         acc = [0.0, 0.0, sq0]
         margin = [float("inf")]
+        self.cond = 0.0          # largest (few ulps of a centre of mass) / (distance to it) over the visited cells
 
         def rec(n):
             if n.cum == 0 or (n.leaf and n.size == 1 and n.index == qi):
@@ -851,6 +852,10 @@ class FloatTree:
             D = 0.0
             D += b0 * b0
             D += b1 * b1
+            if n.cum > 1 and D > 0.0:
+                # a harmless refactoring of the mean update moves com by a few ulps OF ITS MAGNITUDE; seen from a
+                # point much closer than that magnitude (a cluster far from the origin) the sums move by this much
+                self.cond = max(self.cond, 8 * (n.cum + 2) * 2.0 ** -52 * max(abs(n.x) + n.hw, abs(n.y) + n.hh) / math.sqrt(D))
             if n.leaf:
                 use = True
             else:
@@ -1459,6 +1464,9 @@ def check_float_replay(ctx, c, d, stats):
             if margin < 1e-9:
                 stats["float_replay_near_tie"] += 1
                 continue
+            if t.cond > 1e-12:
+                stats["float_replay_ill_conditioned"] += 1
+                continue
             stats["float_replay_forces"] += 1
             if not close3(f, e, 1e-11 * abs(e[2]) + 1e-300):
                 return "computeNonEdgeForces(query %d, theta %s) = %r, binary64 replay gives %r" % (qi, ths, f, e)
@@ -1575,6 +1583,8 @@ def evaluate_grad(ctx, exe, cases, stats):
             neg.append((f[0], f[1]))
             sq = f[2]
             margin = min(margin, mg)
+            if t.cond > 1e-12:
+                margin = 0.0
         co = len(set(P)) != n
         if margin >= 1e-9 and t.cracks == 0 and sq != 0.0:
             scale = 1e-11 * (1.0 + max(max(abs(v) for v in row) for row in dC.values()))
@@ -1825,7 +1835,7 @@ def new_stats():
             "force_full": 0, "exact_ties": 0, "f25_cracks": 0, "auto_roots": 0, "bound_checks": 0, "cells_compared": 0, "max_depth": 0,
             "internal_cells": 0, "leaves_with_absorbed_duplicates": 0, "cases_split_tree_with_duplicates": 0,
             "cases_point_on_root_split_line": 0, "order_groups": 0, "order_pairs": 0, "float_replays": 0, "float_replay_forces": 0,
-            "float_replay_near_tie": 0, "grad_cases": 0, "grad_replayed": 0, "grad_exact": 0, "grad_bound": 0, "cell_count_checks": 0,
+            "float_replay_near_tie": 0, "float_replay_ill_conditioned": 0, "grad_cases": 0, "grad_replayed": 0, "grad_exact": 0, "grad_bound": 0, "cell_count_checks": 0,
             "float_model_cases": 0, "float_model_cells": 0, "float_model_contains_evals": 0, "float_model_cracks": 0,
             "float_model_witness_checked": 0, "internal_cells_in_exact_class": 0, "internal_cells_outside_exact_class": 0, "float_model_coqc_seconds": 0.0, "scaled_twins": 0, "scaled_max_depth": 0}
 
